@@ -14,7 +14,7 @@ from ..case import b2s, s2b
 from ..gen import http as G
 from ..refhttp import request as REQ
 from ..runner import derive_seed, hyp_run
-from ..world import observe
+from ..world import observe, adj_default
 
 PID = "C06"
 LEVEL = "exploration"
@@ -36,8 +36,6 @@ ASSUMPTIONS = [
     "a Content-Length of more than 4300 digits (beyond CPython's int conversion limit) may be refused with 400 instead of 413",
 ]
 ERR = (400, 413, 431, 501)
-DEFAULT_HDR = 262144
-DEFAULT_BODY = 1073741824
 HANG_S = 20
 
 
@@ -99,8 +97,8 @@ def check(stream, adj, o):
     if fails:
         return fails, {"raised"}
     labels = set()
-    max_h = adj.get("max_request_header_size", DEFAULT_HDR)
-    max_b = adj.get("max_request_body_size", DEFAULT_BODY)
+    max_h = adj.get("max_request_header_size", adj_default("max_request_header_size"))
+    max_b = adj.get("max_request_body_size", adj_default("max_request_body_size"))
     items = REQ.parse_stream(stream)
     o.reparse_tolerant([it.method or it.lex_method for it in items])
     finals = [r for r in o.responses if not r.interim]
